@@ -1,4 +1,18 @@
 From Coq Require Import NArith Bool List.
-From CppUVerif Require Import C06_Model C06_Proofs.
+From CppUVerif Require Import C06_Model C06_Proofs C06_Sim C06_Examples.
+Theorem C06_category_exact : C06_category_exact_stmt. Proof. exact category_exact. Qed.
+Print Assumptions C06_category_exact.
+Theorem C06_user_writes_silent : C06_user_writes_silent_stmt. Proof. exact user_writes_silent. Qed.
+Print Assumptions C06_user_writes_silent.
+Theorem C06_every_guard_byte : C06_every_guard_byte_stmt. Proof. exact every_guard_byte. Qed.
+Print Assumptions C06_every_guard_byte.
 Theorem C06_null_silent : C06_null_silent_stmt. Proof. exact null_silent. Qed.
 Print Assumptions C06_null_silent.
+Theorem C06_paired_silent : C06_paired_silent_stmt. Proof. exact paired_silent. Qed.
+Print Assumptions C06_paired_silent.
+Theorem C06_poison_before_free : C06_poison_before_free_stmt. Proof. exact poison_before_free. Qed.
+Print Assumptions C06_poison_before_free.
+Theorem C06_block_removed_after_report : C06_block_removed_after_report_stmt. Proof. exact block_removed_after_report. Qed.
+Print Assumptions C06_block_removed_after_report.
+Theorem C06_run_meets_spec : C06_run_meets_spec_stmt. Proof. exact run_meets_spec. Qed.
+Print Assumptions C06_run_meets_spec.
